@@ -16,6 +16,9 @@ import PromModel.Prelude.Line
     `ifile` | `isymtab` | `itoc`        whole file / section located through the TOC → `<hex>`
     `ientry <k>`                        entry of the k-th series (via all-postings)  → `id=<id> <hex>` | `none`
     `rsyms` `rser <k>` `rpost <n> <v>` `rlv <n>` `rln`   reads through index.Reader
+    `rpostm <n> <v,…|->`                Reader.Postings(name, values...)             → `ok <ids>` | `err`
+    `rpall <n>`                         Reader.PostingsForAllLabelValues(name)       → `ok <ids>` | `err`
+    `rpm <n> <ge|lt|eq|ne> <arg>`       Reader.PostingsForLabelMatching(name, value <kind> arg)
     `decbody <hex>`                     Decoder.Series on an arbitrary entry body    → `ok <lbls> <chks>` | `err`
     `openq`                             tsdb.OpenBlock + ChunkQuerier over everything
     `dmgi <pos> <kind> ser <k>|all`     one byte of the index altered, reader re-opened
@@ -47,6 +50,19 @@ def hexList (ss : List Bytes) : String :=
 
 def natList (xs : List Nat) : String :=
   if xs.isEmpty then "-" else ",".intercalate (xs.map toString)
+
+/-- inverse of `hexList`: `-` = no element, `e` = the empty string -/
+def parseHexList? (s : String) : Option (List Bytes) :=
+  if s = "-" then some [] else
+  (s.splitOn ",").mapM fun p => if p = "e" then some [] else bytesOfHex? p
+
+/-- the value predicates of `rpm`: byte-wise comparison with a fixed string -/
+def matchFn? (kind : String) (arg : Bytes) : Option (Bytes → Bool) :=
+  if kind = "ge" then some fun v => !bytesLt v arg
+  else if kind = "lt" then some fun v => bytesLt v arg
+  else if kind = "eq" then some fun v => v == arg
+  else if kind = "ne" then some fun v => v != arg
+  else none
 
 def parseLbls? (s : String) : Option (List (Bytes × Bytes)) :=
   if s = "-" then some [] else
@@ -338,6 +354,18 @@ def step (st : St) (line : String) : St × String :=
     match st.rd, bytesOfHex? n, bytesOfHex? v with
     | some r, some n, some v => (st, postOut (r.postings crc n v))
     | _, _, _ => (st, "bad-op")
+  | ["rpostm", n, vs] =>
+    match st.rd, bytesOfHex? n, parseHexList? vs with
+    | some r, some n, some vs => (st, postOut (r.postingsMulti crc n vs))
+    | _, _, _ => (st, "bad-op")
+  | ["rpall", n] =>
+    match st.rd, bytesOfHex? n with
+    | some r, some n => (st, postOut (r.postingsAll crc n))
+    | _, _ => (st, "bad-op")
+  | ["rpm", n, kind, arg] =>
+    match st.rd, bytesOfHex? n, (bytesOfHex? arg).bind (matchFn? kind) with
+    | some r, some n, some pred => (st, postOut (r.postingsMatching crc n pred))
+    | _, _, _ => (st, "bad-op")
   | ["rlv", n] =>
     match st.rd, bytesOfHex? n with
     | some r, some n => (st, "ok " ++ hexList (r.labelValues n))
@@ -481,6 +509,20 @@ def expectedQuery (js : JSt) : Option String :=
       s!"{c.mint}:{c.maxt}:{p.2.1.toNat}:{hx p.2.2}").map fun cs => lblStr s.1 ++ "|" ++ ";".intercalate cs)
   (parts.mapM id).map fun ps => ("ok " ++ " ".intercalate ps).trimAsciiEnd.toString
 
+/-- the reads that select series by a predicate on the value of one label name (`Postings` with several
+    values, `PostingsForAllLabelValues`, `PostingsForLabelMatching`): exactly the accepted series that
+    carry the name with an accepted value, in the order of the all-postings list.  Nothing is claimed
+    for the all-postings key (empty name). -/
+def judgeSel (js : JSt) (k : Nat) (n : Bytes) (pred : Bytes → Bool) (out : String) : Except String JSt :=
+  if n.isEmpty then .ok js else
+  match js.ids with
+  | none => .ok js
+  | some ids =>
+    let want := (ids.zip js.series).filterMap fun p =>
+      if p.2.1.any fun l => l.1 == n && pred l.2 then some p.1 else none
+    if out ≠ "ok " ++ natList want then .error s!"violation readback-postings-selected op={k} name={hx n} got={out.take 60}"
+    else .ok js
+
 def judgeStep (js : JSt) (k : Nat) (op out : String) : Except String JSt :=
   match toks op with
   | "wc" :: ts =>
@@ -549,9 +591,22 @@ def judgeStep (js : JSt) (k : Nat) (op out : String) : Except String JSt :=
           if out ≠ "ok " ++ natList want then .error s!"violation readback-postings op={k} name={hx n} value={hx v} got={out.take 60}"
           else .ok js
     | _, _ => .ok js
+  | ["rpostm", n, vs] =>
+    match bytesOfHex? n, parseHexList? vs with
+    | some n, some vs => judgeSel js k n (fun v => vs.contains v) out
+    | _, _ => .ok js
+  | ["rpall", n] =>
+    match bytesOfHex? n with
+    | some n => judgeSel js k n (fun _ => true) out
+    | none => .ok js
+  | ["rpm", n, kind, arg] =>
+    match bytesOfHex? n, (bytesOfHex? arg).bind (matchFn? kind) with
+    | some n, some pred => judgeSel js k n pred out
+    | _, _ => .ok js
   | ["rlv", n] =>
     match bytesOfHex? n with
     | some n =>
+      if n.isEmpty then .ok js else    -- the all-postings key is not a label name: nothing is claimed
       let want := sortedUniq (js.series.flatMap fun s => (s.1.filter fun p => p.1 = n).map (·.2))
       if out ≠ "ok " ++ hexList want then .error s!"violation readback-label-values op={k} name={hx n} got={out.take 60}"
       else .ok js
